@@ -174,6 +174,16 @@ func CheckQueries(w *World, m View, u QUniverse) []string {
 			}
 		}
 	}
+	// a 33-byte remote token names no entry, however it is spelled (a lookup that truncates or
+	// re-pads it would find the entry of its last / first 32 bytes)
+	for _, p := range u.Pairs {
+		h := hex.EncodeToString(p.T)
+		for _, spell := range []string{"ab" + h, "0xab" + h, h + "ab", "00" + h} {
+			if r, err := k.TokenPair(cctx, &cctptypes.QueryGetTokenPairRequest{RemoteDomain: p.D, RemoteToken: spell}); err == nil {
+				errs = append(errs, fmt.Sprintf("token-pair query for the 33-byte token %s (domain %d) found %v", spell, p.D, r))
+			}
+		}
+	}
 	for _, n := range u.Nonces {
 		r, err := k.UsedNonce(cctx, &cctptypes.QueryGetUsedNonceRequest{SourceDomain: n.D, Nonce: n.N})
 		if (err == nil) != m.Used[n.key()] || (err == nil && (r.Nonce.SourceDomain != n.D || r.Nonce.Nonce != n.N)) {
